@@ -25,8 +25,8 @@ IDX = st.sampled_from([0, 0, 0, 1, 1, 1, 2, 2, 3, 4, 5, 7, 11])
 
 
 # thorough tier: coverage-guided campaigns on top of the random ones
-ATHERIS = [{'impl': 'py', 'n': 20000, 'name': 'py-atheris'},
-           {'impl': 'c', 'n': 20000, 'name': 'c-atheris'}]
+ATHERIS = [{'impl': 'py', 'n': 6000, 'name': 'py-atheris'},
+           {'impl': 'c', 'n': 6000, 'name': 'c-atheris'}]
 
 
 def configs(tier, seed):
